@@ -1,4 +1,15 @@
 ---------------------------- MODULE Gen_Route ----------------------------
 EXTENDS Route, Json
 Emit == (Len(hist) = 3) => PrintT(<<"BEHAVIOUR", ToJson(<<[op |-> "Setup", chain |-> chain, cls |-> cls]>> \o hist)>>)
+(* traffic, the chain re-hung at one of its hops, the former parent's late report, traffic again *)
+RehangNext == \/ hist = <<>> /\ Down("cmd")
+              \/ Len(hist) = 1 /\ \E i \in 2..Len(chain) : Rehang(chain[i])
+              \/ Len(hist) = 2 /\ LateDisconnect
+              \/ Len(hist) = 3 /\ \E k \in Kinds : Down(k)
+              \/ Len(hist) = 4 /\ \E o \in {chain[Len(chain)], chain[1], "nobody"} : Up(o)
+RehangInit == /\ \E n \in 2..4 : chain = SubSeq(Hops, 1, n)
+              /\ cls \in [{Hops[i] : i \in 1..Len(Hops)} -> {"small", "topbit"}] /\ \A i \in 5..6 : cls[Hops[i]] = "small"
+              /\ last = [op |-> "none"] /\ hist = <<>>
+RehangSpec == RehangInit /\ [][RehangNext]_vars
+EmitRehang == (Len(hist) = 5) => PrintT(<<"BEHAVIOUR", ToJson(<<[op |-> "Setup", chain |-> SubSeq(Hops, 1, Len(chain) - 2 + (CHOOSE i \in 1..Len(Hops) : Hops[i] = hist[2].owner)), cls |-> cls]>> \o hist)>>)
 =============================================================================
